@@ -205,7 +205,7 @@ def collate_callers(prog: Program, rep: Report):
                 same = True
                 if is_var:
                     for rn, rt in fa.returns():
-                        nd_r = fa.cfg.nodes[rn].ast.value
+                        nd_r = fa.ret_ast(rn)[0]
                         if isinstance(nd_r, ast.Tuple) and len(nd_r.elts) == 2:
                             same = same and isinstance(nd_r.elts[1], ast.Name) and nd_r.elts[1].id == ctx_arg.id
                             same = same and isinstance(nd_r.elts[0], ast.Name) and whole and nd_r.elts[0].id == st.targets[0].id
@@ -301,7 +301,7 @@ def pad_sequences(prog: Program, rep: Report):
             lst = c.func.value.id
     ok = False
     for n, t in rets:
-        v = cfg.nodes[n].ast.value
+        v = fa.ret_ast(n)[0]
         if cfg.reachable(LN, n) and isinstance(v, ast.Call) and isinstance(v.func, ast.Name) and v.func.id == "tuple" \
                 and len(v.args) == 1 and isinstance(v.args[0], ast.Name) and v.args[0].id == lst:
             ok = True
